@@ -1280,6 +1280,30 @@ def c05c(chk):
             rev_second = IT.chain_names(side) == ["rev"]
             ok = full and rev_second
             why = "%s: both ranges are 0..elements()=%s, only the second is reversed=%s" % (ps.describe(), full, rev_second)
+        elif len(zt) == 1 and [n for n in names if n != "as_slice"] == ["enumerate", "zip", "iter"] and len(zt[0][2]) == 1:
+            # the cells themselves, each paired with its mirror image: src.iter().zip(src.iter().rev()).enumerate() over the source slice
+            side = zt[0][2][0]
+            def is_src(place):
+                if place is None:
+                    return False
+                if place[0] == 1 and [e[2] for e in place[1] if e[0] == "field"] == ["array"]:
+                    return True
+                l_ = place[0]
+                for _ in range(4):
+                    d_ = f.single_def(f.copy_root(l_))
+                    if d_ and d_[0] == "call" and callee_is(d_[2]["callee"], A + "Array::<T>::as_slice"):
+                        tg_ = an.arg_pointee(f, d_[2], 0)
+                        return tg_ is not None and tg_[0] == 1 and [e[2] for e in tg_[1] if e[0] == "field"] == ["array"]
+                    tg_ = f.resolve_ptr(f.copy_root(l_))
+                    if tg_ is None or tg_[0] == l_:
+                        return False
+                    l_ = tg_[0]
+                return False
+            both = is_src(ch[-1][1]) and is_src(side[-1][1])
+            rev_second = [n for n in IT.chain_names(side) if n != "as_slice"] == ["rev", "iter"]
+            ok = both and rev_second
+            chk.c05_value_pairs = ok
+            why = "%s: the source slice zipped with itself reversed (both sides the spectrum's values=%s, only the second reversed=%s), enumerated" % (ps.describe(), both, rev_second)
     chk.ob("C05.c", "from_spectrum/pass-over-(i, n-1-i)-for-every-i", ok, f.loc(), why)
     # mid = T / 2 ; has_diagonal = T % 2 == 0
     T = mid = diag = None
@@ -1390,6 +1414,14 @@ def c05d(chk):
         if p is None:
             return ("?",)
         l, proj = p
+        if getattr(chk, "c05_value_pairs", False):
+            # (index, (value, mirrored value)) elements: the parts (1, 0) / (1, 1) are src[i] / src[mirror]
+            try:
+                ep_ = ps.elem_path(op)
+            except Exception:
+                ep_ = None
+            if ep_ in ((1, 0), (1, 1)):
+                return ("src", "i" if ep_ == (1, 0) else "mirror")
         if proj:
             k, ep = indexed(p)
             if k == "src":
